@@ -13,7 +13,7 @@ REPO = os.environ.get("VERIF_REPO", "/repo")
 VERIF = os.path.dirname(os.path.dirname(os.path.abspath(__file__)))
 SCRATCH_ROOT = os.environ.get("VERIF_SCRATCH", "/var/tmp/mithril-verif")
 CACHE = os.path.join(VERIF, ".cache")
-KANI_TARGET = os.path.join(CACHE, "kani-target")
+KANI_TARGET = os.environ.get("VERIF_KANI_TARGET", os.path.join(CACHE, "kani-target"))
 EVIDENCE = os.environ.get("VERIF_EVIDENCE", os.path.join(VERIF, "evidence"))
 
 EXIT_OK, EXIT_VIOLATION, EXIT_UNDECIDED = 0, 1, 2
@@ -27,16 +27,33 @@ def log(msg):
     print(msg, flush=True)
 
 
-def _limit_mem(gb):
-    def f():
-        import resource
-        lim = gb * (1 << 30)
-        resource.setrlimit(resource.RLIMIT_AS, (lim, lim))
-    return f
+def _kill_fat_children(sid, limit_kb, name="cbmc"):
+    """kill every process named `name` of session `sid` whose resident set exceeds the limit (cbmc blow-ups must not take
+    the machine down; a killed cbmc is reported by Kani as a failed run of that harness = resource limit)"""
+    killed = 0
+    for pid in os.listdir("/proc"):
+        if not pid.isdigit():
+            continue
+        try:
+            with open("/proc/%s/stat" % pid) as f:
+                st = f.read()
+            comm = st[st.index("(") + 1:st.rindex(")")]
+            fields = st[st.rindex(")") + 2:].split()
+            if comm != name or int(fields[3]) != sid:     # fields[3] = session id
+                continue
+            rss_kb = int(fields[21]) * (os.sysconf("SC_PAGE_SIZE") // 1024)   # fields[21] = rss in pages
+            if rss_kb > limit_kb:
+                os.kill(int(pid), 9)
+                killed += 1
+        except (OSError, ValueError, IndexError):
+            continue
+    return killed
 
 
 def run(cmd, cwd=None, timeout=None, env=None, stdin=None, mem_gb=None):
-    """Run a command, return (rc, combined output, seconds). rc None on timeout."""
+    """Run a command, return (rc, combined output, seconds). rc None on timeout. mem_gb: resident-set limit per `cbmc`
+    child (watchdog; an address-space rlimit would also hit the Kani driver itself)."""
+    import threading
     t0 = time.time()
     e = dict(os.environ)
     e["CARGO_NET_OFFLINE"] = "true"
@@ -44,8 +61,13 @@ def run(cmd, cwd=None, timeout=None, env=None, stdin=None, mem_gb=None):
         e.update(env)
     p = subprocess.Popen(cmd, cwd=cwd, env=e, stdout=subprocess.PIPE, stderr=subprocess.STDOUT,
                          stdin=subprocess.DEVNULL if stdin is None else subprocess.PIPE,
-                         start_new_session=True, text=True, errors="replace",
-                         preexec_fn=_limit_mem(mem_gb) if mem_gb else None)
+                         start_new_session=True, text=True, errors="replace")
+    stop = threading.Event()
+    if mem_gb:
+        def watchdog():
+            while not stop.wait(4):
+                _kill_fat_children(p.pid, mem_gb * 1024 * 1024)
+        threading.Thread(target=watchdog, daemon=True).start()
     try:
         out, _ = p.communicate(input=stdin, timeout=timeout)
         return p.returncode, out, time.time() - t0
@@ -56,6 +78,8 @@ def run(cmd, cwd=None, timeout=None, env=None, stdin=None, mem_gb=None):
             pass
         out, _ = p.communicate()
         return None, out, time.time() - t0
+    finally:
+        stop.set()
 
 
 class Scratch:
